@@ -143,6 +143,11 @@ void walk(const Node &n, const std::string &p, const std::string &rel, rt::Rng &
     if (!gCaseFailed && rng.chance(300)) {
         // a path that does not exist next to / below this node
         std::string miss = (n.dir ? p + "/" : p + "-") + "no-such-entry";
+        // other ways of not existing: below a regular file, an over-long component, inside a missing directory
+        unsigned mk = (unsigned) rng.below(4);
+        if (mk == 1 && !n.dir) miss = p + "/child";
+        else if (mk == 2) miss = (n.dir ? p + "/" : p + "-") + std::string(300, 'm');
+        else if (mk == 3) miss += "/deeper/still";
         Path m(miss);
         ++C.missingProbes;
         if (m.exists() || m.isFile() || m.isDirectory()) return fail("exists-wrong", "missing-path", "exists()/isFile()/isDirectory() true for missing " + esc(miss));
